@@ -3,7 +3,7 @@
    compared bit for bit (feqb: +0/-0 distinguished, NaNs identified); plus an
    exact rational residual check of Go's output (no float arithmetic trusted). *)
 From Coq Require Import List Bool Arith ZArith QArith Qabs Floats.
-From ADV Require Import Base.Num Base.Corr C04.Model.
+From ADV Require Import Base.Num Base.Corr C04.Model C04.Model2.
 Import ListNotations.
 Local Open Scope nat_scope.
 
@@ -67,7 +67,12 @@ Inductive kase :=
 (* Go's inverse X of A (on the sub-matrix msk): || A X - I ||_inf <= tol, decided in Q *)
 | KRes (n : nat) (msk : list bool) (A X : fmat) (tol : Q)
 (* Go's solution x of A x = b *)
-| KResV (n : nat) (msk : list bool) (A : fmat) (x b : fvec) (tol : Q).
+| KResV (n : nat) (msk : list bool) (A : fmat) (x b : fvec) (tol : Q)
+(* round 3, /repo HEAD (after 175f3f7, 8a0efbb): matrixInverse.Run with msknil = no Submatrix option;
+   the model is evaluated WITHOUT buffers whatever (dirty) InSitu buffers the harness supplied *)
+| KInv2 (dense : bool) (mode : nat) (n : nat) (msknil : bool) (msk : list bool) (m : fmat) (res : outcome fmat)
+(* backSubstitution.Run(A, b [, &InSitu{A: dirty buffer}]): the result never depends on the buffer *)
+| KBS2 (n : nat) (A : fmat) (hasb : bool) (b : fvec) (res : fvec).
 
 Definition check (c : kase) : bool :=
   match c with
@@ -91,6 +96,9 @@ Definition check (c : kase) : bool :=
       end
   | KRes n msk A X tol => all_finite_m X && Qle_bool (residual n msk A X) tol
   | KResV n msk A x b tol => forallb finite x && Qle_bool (residual_vec n msk A x b) tol
+  | KInv2 dense mode n msknil msk m res =>
+      out_eqb meq (m_inverse_v2 NumF dense (mode_of mode) n (if msknil then None else Some msk) m) res
+  | KBS2 n A hasb b res => veq (backsub_run_v2 NumF n A (if hasb then Some b else None) None (zeros NumF n)) res
   end.
 
 Definition mism (cs : list kase) : list nat := mismatches check cs.
